@@ -4,96 +4,205 @@ import fcntl, hashlib, json, os, random, re, subprocess, sys, time
 ROOT = os.path.dirname(os.path.dirname(os.path.abspath(__file__)))
 COQ = os.path.join(ROOT, "coq")
 BUILD = os.path.join(ROOT, "build")
-REPO_SRC = os.environ.get("AS_SRC", "/repo/src")
+REPO = os.environ.get("AS_REPO", "/repo")
+REPO_SRC = os.environ.get("AS_SRC", os.path.join(REPO, "src"))
 PY = sys.executable
 MODEL = os.path.join(BUILD, "model")
-ALLOWED_ASSUMPTIONS = re.compile(r"^(PrimInt63\.|PrimFloat\.|Uint63\.)")   # kernel primitives only
-FORBIDDEN = re.compile(r"\b(Admitted|admit|Axiom|Parameter|Conjecture|Unset Guard|bypass_check)\b")
+ALLOWED_ASSUMPTIONS = re.compile(r"^(PrimInt63\.|PrimFloat\.|Uint63\.|Float64\.)")   # kernel primitives only
+FORBIDDEN = re.compile(r"\b(Admitted|admit|Axiom|Axioms|Parameter|Parameters|Conjecture|Hypothesis|Hypotheses|Variable|Variables"
+                       r"|Unset\s+Guard|bypass_check|Admit\s+Obligations|type-in-type|Unset\s+Universe\s+Checking"
+                       r"|Unset\s+Positivity|Unset\s+Guard\s+Checking|native_compute)\b")
+SECTION_OK = re.compile(r"\b(Variable|Variables|Hypothesis|Hypotheses)\b")
+EXTRACT_DIRECTIVES = (
+    "ExtrOcamlBasic: Extract Inductive bool => bool [true false]; option => option [Some None]; unit => unit [()]; "
+    "list => list [[] (::)]; prod => (*) [(,)]; sumbool => bool [true false]; sumor => option [Some None]; "
+    "Extract Inlined Constant andb/orb/negb/fst/snd => OCaml natives.  ExtrOCamlInt63: Uint63.int => Uint63.t and its "
+    "operations (coq-core.kernel).  ExtrOCamlFloats: PrimFloat.float => Float64.t and its operations (coq-core.kernel).  "
+    "No hand-written Extract directive; N, Z, positive, nat, string, ascii stay Coq datatypes.")
+
 
 class BuildError(Exception):
-    def __init__(self, what, log): super().__init__(what); self.what = what; self.log = log
+    def __init__(self, what, log=""):
+        super().__init__(what); self.what = what; self.log = log
 
-def sh(cmd, cwd=None, timeout=1800, env=None):
+
+def sh(cmd, cwd=None, timeout=3000, env=None):
     p = subprocess.run(cmd, cwd=cwd, shell=isinstance(cmd, str), capture_output=True, text=True, timeout=timeout, env=env)
     return p.returncode, p.stdout + p.stderr
 
+
+def v_files():
+    return sorted(os.path.join(dp, f) for dp, _, fs in os.walk(os.path.join(COQ, "theories")) for f in fs if f.endswith(".v"))
+
+
+def audit_sources():
+    """No axiom-declaring or check-disabling construct anywhere in the development (comments stripped).
+    Variable/Hypothesis are allowed only between `Section` and `End` (they become premises of the theorems)."""
+    for path in v_files():
+        if "/Gen/" in path: continue
+        txt = open(path).read()
+        txt = re.sub(r"\(\*.*?\*\)", " ", txt, flags=re.S)
+        txt = re.sub(r'"(?:[^"]|"")*"', '""', txt)
+        depth = 0
+        for sentence in re.split(r"\.\s", txt):
+            s = sentence.strip()
+            if re.match(r"Section\s+\w+", s): depth += 1
+            elif re.match(r"End\s+\w+", s) and depth > 0: depth -= 1
+            m = FORBIDDEN.search(s)
+            if m and not (depth > 0 and SECTION_OK.fullmatch(m.group(1))):
+                raise BuildError(f"forbidden construct {m.group(0)!r} in {os.path.relpath(path, ROOT)}")
+
+
+def regenerate_constants():
+    dest = os.path.join(COQ, "theories", "Gen", "Extracted.v")
+    rc, out = sh([PY, os.path.join(ROOT, "harness", "extract_consts.py"), dest],
+                 env=dict(os.environ, AS_SRC=REPO_SRC, PYTHONPATH=REPO_SRC, PYTHONHASHSEED="0"))
+    if rc != 0:
+        raise BuildError("translator: harness/extract_consts.py could not regenerate Gen/Extracted.v from the sources "
+                         "(the constants the model is built from are no longer what the translator understands): "
+                         + " ".join(out.strip().split("\n")[-1:])[:300], out)
+
+
+def ensure_makefile():
+    mk = os.path.join(COQ, "Makefile")
+    cp = os.path.join(COQ, "_CoqProject")
+    if not os.path.exists(mk) or os.path.getmtime(mk) < os.path.getmtime(cp):
+        rc, out = sh("coq_makefile -f _CoqProject -o Makefile", cwd=COQ)
+        if rc != 0: raise BuildError("coq_makefile failed", out)
+
+
+def make(target, timeout=2400):
+    rc, out = sh(f"timeout {timeout} make -j16 {target}", cwd=COQ, timeout=timeout + 60)
+    if rc != 0:
+        m = re.search(r'File "\./([^"]+)", line (\d+), characters [\d-]+:\s*\nError:(.*?)(?:\n\n|\nmake|\Z)', out, re.S)
+        where = f"{m.group(1)}:{m.group(2)}: {' '.join(m.group(3).split())[:240]}" if m else "make failed: " + " ".join(out.split())[-300:]
+        raise BuildError(f"proof obligation no longer checks: {where}", out[-6000:])
+    return out
+
+
+def read_assumptions(prop_target, out):
+    vfile = os.path.join(COQ, "theories", "Props", prop_target + ".v")
+    src = open(vfile).read()
+    names = re.findall(r"^(?:Theorem|Corollary)\s+(\w+)", src, re.M)
+    printed = re.findall(r"^Print Assumptions\s+(\w+)", src, re.M)
+    blocks = re.findall(r"(Closed under the global context|Axioms:\n(?:.+\n?)+?)(?=\n*(?:Closed under|Axioms:|\Z|COQC|COQDEP|make))", out)
+    assumptions = {}
+    for n, b in zip(printed, blocks):
+        if b.startswith("Closed"): assumptions[n] = "closed under the global context"
+        else:
+            axs = [l.split(":")[0].strip() for l in b.split("\n")[1:] if ":" in l and not l.startswith(" ")]
+            bad = [a for a in axs if not ALLOWED_ASSUMPTIONS.match(a)]
+            if bad: raise BuildError(f"theorem {n} depends on axioms {bad}", b)
+            assumptions[n] = "kernel primitives only: " + ", ".join(sorted(axs))
+    if len(assumptions) != len(printed) or set(printed) != set(names):
+        raise BuildError(f"Print Assumptions output of Props/{prop_target}.v incomplete "
+                         f"({len(blocks)} blocks for {len(printed)} commands, {len(names)} theorems)", out[-3000:])
+    return assumptions, names
+
+
+def build_model():
+    """(Re)build the extracted model binary when any input changed.  Raises BuildError."""
+    srcs = [f for f in v_files() if "/Props/" not in f and "/Proofs/" not in f and "/Legacy/" not in f]
+    srcs.append(os.path.join(ROOT, "ocaml", "driver.ml"))
+    h = hashlib.sha256()
+    for f in srcs: h.update(f.encode()); h.update(open(f, "rb").read())
+    stamp = os.path.join(BUILD, ".model.sha")
+    if os.path.exists(MODEL) and os.path.exists(stamp) and open(stamp).read() == h.hexdigest(): return
+    make("theories/Extract/Entry.vo")
+    tmp = os.path.join(BUILD, "extract"); os.makedirs(tmp, exist_ok=True)
+    rc, out = sh(f"timeout 900 coqc -Q {COQ}/theories AS -o {tmp}/Extract.vo {COQ}/theories/Extract/Extract.v && cp {ROOT}/ocaml/driver.ml . && "
+                 "timeout 900 ocamlfind ocamlopt -O2 -w -a -rectypes -thread -package coq-core.kernel -linkpkg model.mli model.ml driver.ml -o model.new",
+                 cwd=tmp)
+    if rc != 0 or not os.path.exists(os.path.join(tmp, "model.new")):
+        raise BuildError("extraction / OCaml build of the model failed", out[-3000:])
+    os.replace(os.path.join(tmp, "model.new"), MODEL)
+    open(stamp, "w").write(h.hexdigest())
+
+
 def build(prop_target):
     """Regenerate the constants from the sources, re-check the property's proof chain, rebuild the model binary.
-    Returns (assumptions: {theorem: text}, obligations: [names]).  Raises BuildError naming what broke."""
+    Returns (assumptions: {theorem: text}, obligations: [names], errors: [what broke])."""
     os.makedirs(BUILD, exist_ok=True)
+    errors = []; assumptions = {}; names = []
     with open(os.path.join(BUILD, ".lock"), "w") as lock:
         fcntl.flock(lock, fcntl.LOCK_EX)
-        rc, out = sh([PY, os.path.join(ROOT, "harness", "extract_consts.py"), os.path.join(COQ, "theories", "Gen", "Extracted.v")],
-                     env=dict(os.environ, AS_SRC=REPO_SRC, PYTHONHASHSEED="0"))
-        if rc != 0: raise BuildError("translator: extract_consts.py failed (constants could not be regenerated)", out)
-        if not os.path.exists(os.path.join(COQ, "Makefile")):
-            rc, out = sh("coq_makefile -f _CoqProject -o Makefile", cwd=COQ)
-            if rc != 0: raise BuildError("coq_makefile", out)
-        # audit the sources of the development
-        for dp, _, fs in os.walk(os.path.join(COQ, "theories")):
-            for f in fs:
-                if f.endswith(".v"):
-                    txt = re.sub(r"\(\*.*?\*\)", "", open(os.path.join(dp, f)).read(), flags=re.S)
-                    m = FORBIDDEN.search(txt)
-                    if m: raise BuildError(f"forbidden construct {m.group(0)!r} in {f}", "")
-        target = f"theories/Props/{prop_target}.vo"
-        vfile = os.path.join(COQ, "theories", "Props", prop_target + ".v")
-        os.utime(vfile)            # always re-run the property file itself so that Print Assumptions is captured
-        rc, out = sh(f"timeout 1500 make -j16 {target}", cwd=COQ)
-        if rc != 0:
-            m = re.search(r'File "\./([^"]+)", line (\d+).*?\nError:(.*?)(?:\n\n|\Z)', out, re.S)
-            where = f"{m.group(1)}:{m.group(2)}:{' '.join(m.group(3).split())[:200]}" if m else "make failed"
-            raise BuildError(f"proof obligation no longer checks: {where}", out[-4000:])
-        # Print Assumptions output, in order of the theorems of the property file
-        names = re.findall(r"^Theorem\s+(\w+)", open(vfile).read(), re.M)
-        printed = re.findall(r"^Print Assumptions\s+(\w+)", open(vfile).read(), re.M)
-        blocks = re.findall(r"(Closed under the global context|Axioms:\n(?:.+\n?)+?)(?=\n*(?:Closed under|Axioms:|\Z|COQC|make))", out)
-        assumptions = {}
-        for n, b in zip(printed, blocks):
-            if b.startswith("Closed"): assumptions[n] = "closed"
-            else:
-                axs = [l.split(":")[0].strip() for l in b.split("\n")[1:] if ":" in l and not l.startswith(" ")]
-                bad = [a for a in axs if not ALLOWED_ASSUMPTIONS.match(a)]
-                if bad: raise BuildError(f"theorem {n} depends on axioms {bad}", b)
-                assumptions[n] = axs
-        if len(assumptions) != len(printed):
-            raise BuildError("could not read the Print Assumptions output of " + prop_target, out[-2000:])
-        # model binary (rebuilt when any input changed)
-        srcs = sorted(os.path.join(dp, f) for dp, _, fs in os.walk(os.path.join(COQ, "theories")) for f in fs if f.endswith(".v"))
-        srcs.append(os.path.join(ROOT, "ocaml", "driver.ml"))
-        h = hashlib.sha256()
-        for f in srcs: h.update(open(f, "rb").read())
-        stamp = os.path.join(BUILD, ".model.sha")
-        if not (os.path.exists(MODEL) and os.path.exists(stamp) and open(stamp).read() == h.hexdigest()):
-            rc, out = sh("timeout 600 make -j16 theories/Extract/Entry.vo", cwd=COQ)
-            if rc != 0: raise BuildError("model no longer builds", out[-3000:])
-            rc, out = sh(f"coqc -Q {COQ}/theories AS {COQ}/theories/Extract/Extract.v && cp {ROOT}/ocaml/driver.ml . && "
-                         "ocamlfind ocamlopt -O2 -rectypes -thread -package coq-core.kernel -linkpkg model.mli model.ml driver.ml -o model",
-                         cwd=BUILD)
-            for ext in ("vo", "glob", "vok", "vos"):
-                try: os.remove(os.path.join(COQ, "theories", "Extract", "Extract." + ext))
+        try:
+            audit_sources()
+            regenerate_constants()
+            ensure_makefile()
+            vfile = os.path.join(COQ, "theories", "Props", prop_target + ".v")
+            for ext in (".vo", ".vos", ".vok", ".glob"):      # always re-run the property file: Print Assumptions is read from it
+                try: os.remove(vfile[:-2] + ext)
                 except OSError: pass
-            if rc != 0 or not os.path.exists(MODEL): raise BuildError("extraction / OCaml build failed", out[-3000:])
-            open(stamp, "w").write(h.hexdigest())
-        return assumptions, names
+            out = make(f"theories/Props/{prop_target}.vo")
+            assumptions, names = read_assumptions(prop_target, out)
+        except BuildError as e:
+            errors.append(e.what); save_log("build-" + prop_target, e.log)
+        try:
+            build_model()
+        except BuildError as e:
+            errors.append("model: " + e.what); save_log("model-" + prop_target, e.log)
+    return assumptions, names, errors
 
-def run_model(lines, shards=16):
-    """Evaluate request lines with the extracted model; one reply line each."""
+
+def save_log(name, text):
+    os.makedirs(os.path.join(BUILD, "logs"), exist_ok=True)
+    open(os.path.join(BUILD, "logs", name + ".log"), "w").write(text or "")
+
+
+def run_model(lines, shards=16, per_shard=150):
+    """Evaluate request lines with the extracted model; one decoded reply (text) each."""
     if not lines: return []
-    n = min(shards, max(1, len(lines) // 200))
+    if not os.path.exists(MODEL): raise BuildError("no model binary")
+    n = min(shards, max(1, len(lines) // per_shard))
     parts = [lines[i::n] for i in range(n)]
-    procs = [subprocess.Popen([MODEL], stdin=subprocess.PIPE, stdout=subprocess.PIPE, text=True) for _ in parts]
-    outs = []
-    for p, part in zip(procs, parts):
-        o, _ = p.communicate("\n".join(part) + "\n", timeout=1500)
-        o = o.split("\n")[:-1]
-        if len(o) != len(part): raise BuildError("model binary returned a wrong number of replies", "")
-        outs.append(o)
+    procs = []
+    for part in parts:
+        p = subprocess.Popen([MODEL], stdin=subprocess.PIPE, stdout=subprocess.PIPE, text=True)
+        procs.append(p)
+    import threading
+    outs = [None] * n
+    def feed(k):
+        o, _ = procs[k].communicate("\n".join(parts[k]) + "\n", timeout=3000)
+        outs[k] = o.split("\n")[:-1]
+    ths = [threading.Thread(target=feed, args=(k,)) for k in range(n)]
+    for t in ths: t.start()
+    for t in ths: t.join()
     res = [None] * len(lines)
-    for k, o in enumerate(outs): res[k::n] = o
-    return res
+    for k in range(n):
+        if outs[k] is None or len(outs[k]) != len(parts[k]):
+            raise BuildError("model binary returned a wrong number of replies")
+        res[k::n] = outs[k]
+    bad = [(l, r) for l, r in zip(lines, res) if r.startswith("error")]
+    if bad: raise BuildError("model binary rejected a request: " + bad[0][0][:200] + " -> " + bad[0][1])
+    return [unhex_text(r) for r in res]
 
-def H(x): return (x.encode().hex() if isinstance(x, str) else bytes(x).hex()) or "-"
+
+def unhex_text(r):
+    """replies are `ok <hex of the model's own rendering>` / `true` / `false`"""
+    if r.startswith("ok "): return bytes.fromhex(r[3:]).decode("utf-8", "surrogateescape")
+    if r == "ok": return ""
+    return r
+
+
+def H(x):
+    """argument encoding of the line protocol: hex of the UTF-8 bytes, '-' for empty"""
+    if isinstance(x, str): x = x.encode("utf-8", "surrogatepass")
+    return bytes(x).hex() or "-"
+
+
+def A(x):
+    """generic argument encoding: bytes/str -> hex, int/bool -> #n, list/tuple -> [a,b,...], None -> '-'"""
+    if x is None: return "-"
+    if isinstance(x, bool): return "#1" if x else "#0"
+    if isinstance(x, int): return "#%d" % x
+    if isinstance(x, (list, tuple)): return "[" + ",".join(A(y) for y in x) + "]"
+    return H(x)
+
+
+def req(fn, *args):
+    return fn + " " + " ".join(A(a) for a in args) if args else fn
+
 
 def load_known_findings(prop):
     path = os.path.join(ROOT, "known_findings.txt"); out = []
@@ -105,21 +214,76 @@ def load_known_findings(prop):
                 if m: out.append((re.compile(m.group(1)), m.group(2)))
     return out
 
-def finish(prop, tier, seed, t0, coverage, assumptions_note, violations, replay=None, unproved=None):
-    ev = {"property_id": prop, "tier": tier, "seed": seed, "level": "proof", "coverage": coverage,
-          "assumptions": assumptions_note, "wall_s": round(time.time() - t0, 2), "violations": violations}
-    os.makedirs(os.path.join(ROOT, "evidence"), exist_ok=True)
-    json.dump(ev, open(os.path.join(ROOT, "evidence", prop + ".json"), "w"), indent=1, sort_keys=True)
-    if violations:
-        print(f"VIOLATION property={prop} replay={replay}" + (" no-failing-input-found" if unproved else ""))
-        sys.exit(1)
-    print(f"{prop} {tier}: held on everything explored ({coverage.get('evaluations', 0)} cases, "
-          f"{coverage.get('discharged', 0)}/{coverage.get('obligations', 0)} obligations)")
-    sys.exit(0)
+
+class Outcome:
+    """What one run of a property's streams produced."""
+    def __init__(self):
+        self.evaluations = 0; self.nontrivial = set(); self.samples = []; self.distribution = {}
+        self.disagreements = []   # {describe, input, impl, model, stream}
+        self.failing = []         # {describe, input, impl, expected, stream}
+        self.streams = {}; self.exhaustive = False; self.notes = []
+    def count(self, key, n=1): self.distribution[key] = self.distribution.get(key, 0) + n
+    def stream(self, name, n): self.streams[name] = self.streams.get(name, 0) + n; self.evaluations += n
+
+
+def differential(out, stream, cases, impl_out, model_out, expected, describe, nontrivial=None, sample=None, classify=None,
+                 unspecified="-"):
+    """Compare implementation, model and Spec on one stream of cases.
+    impl_out / model_out / expected are lists of canonical strings (views); expected may hold `unspecified`."""
+    out.stream(stream, len(cases))
+    for k, c in enumerate(cases):
+        i = impl_out[k]; m = model_out[k] if model_out is not None else None; e = expected[k] if expected is not None else unspecified
+        d = describe(c)
+        if nontrivial is None or nontrivial(c): out.nontrivial.add(stream + ":" + d)
+        if classify: out.count(classify(c, i))
+        if m is not None and i != m and len(out.disagreements) < 50:
+            out.disagreements.append({"stream": stream, "describe": d, "input": c, "impl": clip(i), "model": clip(m)})
+        elif m is not None and i != m: out.disagreements.append(None)
+        if e != unspecified and i != e:
+            if len(out.failing) < 50:
+                out.failing.append({"stream": stream, "describe": d, "input": c, "impl": clip(i), "expected": clip(e)})
+            else: out.failing.append(None)
+        if sample is not None and len([s for s in out.samples if s.get("stream") == stream]) < 2:
+            out.samples.append({"stream": stream, "case": clip(sample(c) if callable(sample) else c), "impl": clip(i)})
+
+
+def clip(x, n=400):
+    if isinstance(x, str) and len(x) > n: return x[:n] + "...(%d chars)" % len(x)
+    if isinstance(x, (list, tuple)): return [clip(y, n) for y in x][:40]
+    if isinstance(x, dict): return {k: clip(v, n) for k, v in list(x.items())[:40]}
+    if isinstance(x, bytes): return clip(x.hex(), n)
+    return x
+
+
+def jsonable(x):
+    if isinstance(x, bytes): return {"hex": x.hex()}
+    if isinstance(x, (list, tuple)): return [jsonable(y) for y in x]
+    if isinstance(x, dict): return {str(k): jsonable(v) for k, v in x.items()}
+    if isinstance(x, (str, int, float, bool)) or x is None: return x
+    return repr(x)
+
+
+def unjson(x):
+    if isinstance(x, dict) and set(x) == {"hex"}: return bytes.fromhex(x["hex"])
+    if isinstance(x, list): return [unjson(y) for y in x]
+    if isinstance(x, dict): return {k: unjson(v) for k, v in x.items()}
+    return x
+
 
 def write_replay(prop, payload):
     os.makedirs(os.path.join(ROOT, "replays"), exist_ok=True)
+    payload = jsonable(payload)
     h = hashlib.sha256(json.dumps(payload, sort_keys=True).encode()).hexdigest()[:12]
     path = os.path.join(ROOT, "replays", f"{prop}-{h}.json")
+    payload["replay_cmd"] = f"./check {prop} --replay {path}"
     json.dump(payload, open(path, "w"), indent=1, sort_keys=True)
     return path
+
+
+def write_evidence(prop, tier, seed, t0, coverage, assumptions_note, violations):
+    ev = {"property_id": prop, "tier": tier, "seed": seed, "level": "proof", "coverage": jsonable(coverage),
+          "assumptions": assumptions_note, "wall_s": round(time.time() - t0, 2), "violations": violations}
+    os.makedirs(os.path.join(ROOT, "evidence"), exist_ok=True)
+    tmp = os.path.join(ROOT, "evidence", prop + ".json.tmp")
+    json.dump(ev, open(tmp, "w"), indent=1, sort_keys=True)
+    os.replace(tmp, os.path.join(ROOT, "evidence", prop + ".json"))
